@@ -186,6 +186,9 @@ pub mod web {
     impl Bytes {
         pub fn len(&self) -> (r: usize) ensures r == self.b@.len() { self.b.len() }
     }
+    impl Bytes {
+        pub fn is_empty(&self) -> (r: bool) ensures r == (self.b@.len() == 0) { self.b.len() == 0 }
+    }
     pub struct BytesMut { pub b: Vec<u8> }
     impl BytesMut {
         pub fn new() -> (r: BytesMut) ensures r.b@.len() == 0 { BytesMut { b: Vec::new() } }
